@@ -267,15 +267,29 @@ func (st *State) loadLoc(l *Loc) *Val {
 		} else {
 			t = tSel(arr, l.Ref)
 		}
+		if st.wfSink == nil && len(t) > 120 {
+			// name big terms (sharing); not under a quantifier, where the term may mention bound variables
+			n := st.fx.fresh("ld", lf.sort)
+			st.fx.sol.Assert(tEq(n, t))
+			t = n
+		}
 		xs[i] = t
 	}
 	i := 0
 	v := unflat(l.T, xs, &i)
-	st.assumeWF(v, arrIsInitial(st, l))
+	// values read from heap arrays that were never written since entry were allocated before entry
+	initial := true
+	for _, lf := range ls {
+		if lf.arr {
+			continue
+		}
+		if t := st.heap[leafKey(l, lf.path)]; !strings.HasPrefix(t, "H0_") {
+			initial = false
+		}
+	}
+	st.assumeWF(v, initial)
 	return v
 }
-
-func arrIsInitial(st *State, l *Loc) bool { return false }
 
 func (st *State) storeLoc(l *Loc, v *Val) {
 	var ls []leaf
@@ -318,7 +332,9 @@ func (st *State) objLoc(ptr string, pointee types.Type) *Loc {
 		// pointer to array: ptr is the memory base; whole-array access handled by callers
 		return &Loc{Mem: true, Ref: ptr, Idx: "0", Root: typeKey(pointee.Underlying().(*types.Array).Elem()), T: pointee, RootT: pointee.Underlying().(*types.Array).Elem()}
 	default:
-		return &Loc{Mem: true, Ref: ptr, Idx: "0", Root: typeKey(pointee), T: pointee, RootT: pointee}
+		// single variables (locals whose address is taken, captured variables, globals, *T out-parameters) live in
+		// their own memory space: they never overlap the backing arrays of slices
+		return &Loc{Mem: true, Ref: ptr, Idx: "0", Root: "cell:" + typeKey(pointee), T: pointee, RootT: pointee}
 	}
 }
 
@@ -390,11 +406,19 @@ func (st *State) assumeWF(v *Val, initial bool) {
 		} else if isRefLike(v.T) || isStringT(v.T) {
 			sol.Assert(tCmp(">=", v.S, "0"))
 			if isRefLike(v.T) {
-				sol.Assert(tCmp("<", v.S, st.allocTop))
+				if initial {
+					sol.Assert(tCmp("<", v.S, st.top0))
+				} else {
+					sol.Assert(tCmp("<", v.S, st.allocTop))
+				}
 			}
 		}
 	case KSlice:
-		sol.Assert(tAnd(tCmp(">=", v.B, "0"), tCmp("<", v.B, st.allocTop), tCmp(">=", v.O, "0"), tCmp(">=", v.L, "0"), tCmp("<=", v.L, v.C),
+		top := st.allocTop
+		if initial {
+			top = st.top0
+		}
+		sol.Assert(tAnd(tCmp(">=", v.B, "0"), tCmp("<", v.B, top), tCmp(">=", v.O, "0"), tCmp(">=", v.L, "0"), tCmp("<=", v.L, v.C),
 			tCmp("<=", tAdd(v.O, v.C), maxAlloc),
 			tImp(tEq(v.B, "0"), tAnd(tEq(v.C, "0"), tEq(v.O, "0")))))
 	case KStruct, KTuple:
